@@ -205,6 +205,8 @@ func svdFamily(c *inst, raw json.RawMessage, full bool, sum *core.Summary) {
 							}
 							k.svdValues(routine, c, s)
 							k.svdVectors(routine, c, getU, getV)
+							// every column of U and row of V^T (repeated values, SVDAll extras): GenPred!SvdAccept
+							k.svdIdentity(routine, c, u, ldu, ucols, vt, ldvt, vrows, s)
 						}
 					}
 				}
